@@ -132,8 +132,8 @@ Section Mat.
   (* A / v[:, None] *)
   Definition np_rowscale_div (A : list (list F)) (v : list F) : list (list F) := map2 (fun a s => vdivs O a s) A v.
 
-  (* the matrix of a binary function over a list of patterns *)
-  Definition pairwise (f : list F -> list F -> F) (rows : list (list F)) : list (list F) :=
+  (* the matrix of a binary function over a list of items (patterns, or pairs of training and test patterns) *)
+  Definition pairwise {X} (f : X -> X -> F) (rows : list X) : list (list F) :=
     map (fun a => map (fun b => f a b) rows) rows.
 
   Lemma map2_map_map {X Y Z W} (f : Y -> Z -> W) (g : X -> Y) (h : X -> Z) (l : list X) :
@@ -147,16 +147,21 @@ Section Mat.
     np_matmulT rows (map g rows) = pairwise (fun a b => dot O a (g b)) rows.
   Proof. unfold np_matmulT, pairwise. apply map_ext. intros a. rewrite map_map. reflexivity. Qed.
 
-  Lemma mmap2_pairwise op f g rows :
+  (* A @ B.T for two stacks of patterns that are listed alike (training and test means of the same conditions) *)
+  Lemma matmulT_pairwise_zip {X} (u v : X -> list F) (zs : list X) :
+    np_matmulT (map u zs) (map v zs) = pairwise (fun a b => dot O (u a) (v b)) zs.
+  Proof. unfold np_matmulT, pairwise. rewrite map_map. apply map_ext. intros a. rewrite map_map. reflexivity. Qed.
+
+  Lemma mmap2_pairwise {X} op (f g : X -> X -> F) rows :
     np_mmap2 op (pairwise f rows) (pairwise g rows) = pairwise (fun a b => op (f a b) (g a b)) rows.
   Proof.
     unfold np_mmap2, pairwise. rewrite map2_map_map. apply map_ext. intros a. apply map2_map_map.
   Qed.
 
-  Lemma mmap_pairwise h f rows : np_mmap h (pairwise f rows) = pairwise (fun a b => h (f a b)) rows.
+  Lemma mmap_pairwise {X} h (f : X -> X -> F) rows : np_mmap h (pairwise f rows) = pairwise (fun a b => h (f a b)) rows.
   Proof. unfold np_mmap, pairwise. rewrite map_map. apply map_ext. intros a. apply map_map. Qed.
 
-  Lemma outer_pairwise op (u v : list F -> F) rows :
+  Lemma outer_pairwise {X} op (u v : X -> F) rows :
     np_outer op (map u rows) (map v rows) = pairwise (fun a b => op (u a) (v b)) rows.
   Proof. unfold np_outer, pairwise. rewrite map_map. apply map_ext. intros a. apply map_map. Qed.
 
@@ -167,30 +172,30 @@ Section Mat.
     rewrite <- seq_shift, map_map. exact IH.
   Qed.
 
-  Lemma diag_pairwise f rows : np_diag (pairwise f rows) = map (fun a => f a a) rows.
+  Lemma diag_pairwise {X} (d : X) (f : X -> X -> F) rows : np_diag (pairwise f rows) = map (fun a => f a a) rows.
   Proof.
     unfold np_diag, pairwise. rewrite map_length.
-    rewrite <- (map_nth_seq_gen (fun a => f a a) rows []).
+    rewrite <- (map_nth_seq_gen (fun a => f a a) rows d).
     apply map_ext_in. intros i Hi. apply in_seq in Hi.
-    rewrite (nth_indep _ [] (map (fun b => f [] b) rows)) by (rewrite map_length; lia).
-    rewrite (map_nth (fun a => map (fun b => f a b) rows) rows [] i).
-    rewrite (nth_indep _ (n0 O) (f (nth i rows []) [])) by (rewrite map_length; lia).
-    rewrite (map_nth (fun b => f (nth i rows []) b) rows [] i). reflexivity.
+    rewrite (nth_indep _ [] (map (fun b => f d b) rows)) by (rewrite map_length; lia).
+    rewrite (map_nth (fun a => map (fun b => f a b) rows) rows d i).
+    rewrite (nth_indep _ (n0 O) (f (nth i rows d) d)) by (rewrite map_length; lia).
+    rewrite (map_nth (fun b => f (nth i rows d) b) rows d i). reflexivity.
   Qed.
 
-  Lemma T_pairwise f rows : np_T (pairwise f rows) = pairwise (fun a b => f b a) rows.
+  Lemma T_pairwise {X} (d : X) (f : X -> X -> F) rows : np_T (pairwise f rows) = pairwise (fun a b => f b a) rows.
   Proof.
     unfold np_T, pairwise.
     assert (length (hd [] (map (fun a => map (fun b => f a b) rows) rows)) = length rows) as Hl.
     { destruct rows as [|r0 t]; [reflexivity|]. cbn [map hd length]. rewrite map_length. reflexivity. }
     rewrite Hl.
-    rewrite <- (map_nth_seq_gen (fun b => map (fun a => f a b) rows) rows []).
+    rewrite <- (map_nth_seq_gen (fun b => map (fun a => f a b) rows) rows d).
     apply map_ext_in. intros j Hj. apply in_seq in Hj. rewrite map_map. apply map_ext. intros a.
-    rewrite (nth_indep _ (n0 O) (f a [])) by (rewrite map_length; lia).
-    rewrite (map_nth (fun b => f a b) rows [] j). reflexivity.
+    rewrite (nth_indep _ (n0 O) (f a d)) by (rewrite map_length; lia).
+    rewrite (map_nth (fun b => f a b) rows d j). reflexivity.
   Qed.
 
-  Lemma triu_from_pairwise f (pre rows : list (list F)) :
+  Lemma triu_from_pairwise {X} (f : X -> X -> F) (pre rows : list X) :
     np_triu_from (length pre) (map (fun a => map (fun b => f a b) (pre ++ rows)) rows) = triu_map f rows.
   Proof.
     revert pre. induction rows as [|r t IH]; intros pre; [reflexivity|].
@@ -205,6 +210,10 @@ Section Mat.
       rewrite <- IH. f_equal. apply map_ext. intros a. rewrite <- app_assoc. reflexivity.
   Qed.
 
-  Lemma triu_pairwise f rows : np_triu (pairwise f rows) = triu_map f rows.
+  Lemma triu_pairwise {X} (f : X -> X -> F) rows : np_triu (pairwise f rows) = triu_map f rows.
   Proof. exact (triu_from_pairwise f [] rows). Qed.
+
+  (* A @ N for a square / rectangular N: every row of A times N, as the linear combination of the rows of N *)
+  Definition np_matmul (A N : list (list F)) : list (list F) :=
+    let q := length (hd [] N) in map (fun a => vsum O q (map2 (vscale O) a N)) A.
 End Mat.
